@@ -3,6 +3,8 @@ package drivers
 import (
 	"bytes"
 	"crypto/sha1"
+	"crypto/x509/pkix"
+	"encoding/asn1"
 	"encoding/json"
 	"fmt"
 	"math/big"
@@ -40,10 +42,18 @@ func newC13cast() *c13cast {
 	c.L1 = world.Leaf(p.CA, bi(101), []string{urlA}, nil)
 	c.L2 = world.Leaf(p.CA, bi(102), []string{urlA}, nil)
 	c.L3 = world.Leaf(p.CA, bi(103), []string{urlB}, nil)
-	c.v1 = world.SimpleCRL(p.CA, 1, 101, 105).DER()
-	c.v2 = world.SimpleCRL(p.CA, 2, 101, 102).DER()
-	c.vb = world.SimpleCRL(p.CA, 1, 103).DER()
-	bad := world.SimpleCRL(p.CA, 3, 101, 102)
+	// every list carries what lists in the field carry: an extension this validator does not evaluate (not critical) at
+	// the list and a private one at an entry - whatever the reader keeps about such things is kept per read
+	mk := func(n int64, serials ...int64) *world.CRLSpec {
+		s := world.SimpleCRL(p.CA, n, serials...)
+		s.Exts = append(s.Exts, world.UnknownExt(false, 10))
+		s.Entries[0].Exts = []pkix.Extension{world.ReasonExt(1), {Id: asn1.ObjectIdentifier{1, 3, 6, 1, 4, 1, 99999, 7, int(n)}, Value: []byte{0x05, 0x00}}}
+		return s
+	}
+	c.v1 = mk(1, 101, 105).DER()
+	c.v2 = mk(2, 101, 102).DER()
+	c.vb = mk(1, 103).DER()
+	bad := mk(3, 101, 102)
 	bad.BadSig = true
 	c.v2bad = bad.DER()
 	return c
